@@ -16,6 +16,7 @@ type callsOpts struct {
 	maxConns, maxCalls int
 	disconnect         bool // C13: the terminal disappears at some point
 	traffic            bool
+	earlyCalls         bool
 	reactKinds         []string
 }
 
@@ -82,6 +83,11 @@ func (g *genCtx) genCalls(o callsOpts) {
 		ca := &Actor{Name: fmt.Sprintf("call%d", k), Conn: -1}
 		op := Op{K: "call", Call: &CallSpec{Key: ref.PhoneDigits(p.Conns[ci].Phone), Cmd: cmd, Body: body, Timeout: to},
 			After: &Dep{Actor: p.Conns[ci].Label, N: joinOps[ci]}}
+		if o.earlyCalls && g.r.chance(30) {
+			// issued as soon as the first message has been delivered: the command may be written before the
+			// connection's first reply and then carries platform serial 0
+			op.After = &Dep{Actor: p.Conns[ci].Label, N: joinOps[ci] - 1}
+		}
 		if g.r.chance(30) {
 			ca.Ops = append(ca.Ops, Op{K: "sleep", D: int64(time.Duration(g.r.intn(2000)) * time.Millisecond), After: op.After})
 		}
@@ -161,7 +167,7 @@ func (g *genCtx) genCalls(o callsOpts) {
 
 func genC12(seed uint64, tier string, idx int) *Plan {
 	p, g := newPlan("C12", seed, tier)
-	g.genCalls(callsOpts{maxConns: 3, maxCalls: 6, traffic: true,
+	g.genCalls(callsOpts{maxConns: 3, maxCalls: 6, traffic: true, earlyCalls: true,
 		reactKinds: []string{"ok", "ok", "ok", "late", "dup", "unknown", "never", "unknown_then_ok"}})
 	p.Sched = g.sched()
 	p.Sched.Jitter = g.r.chance(25)
@@ -264,6 +270,18 @@ func checkC12(r *Result) []Violation {
 		if !online {
 			continue // routing of unknown keys is C11's subject
 		}
+		if c.cmdN == 0 && c.ret != nil && strings.Contains(c.ret.Err, "key not exist") && !strings.Contains(c.ret.Err, "connection closed") {
+			joined := 0
+			for _, e := range r.Hist {
+				if e.K == KJoin && e.C == want && e.Err == "" {
+					joined = e.Step
+					break
+				}
+			}
+			if joined == 0 || c.call.Step < joined {
+				continue // issued before the terminal was online: routing of such calls is C11's subject
+			}
+		}
 		if c.cmdN == 0 {
 			bad("command_not_written", fmt.Sprintf("call %d (cmd=%#04x key=%s): no command frame appeared on the terminal's socket", c.n, c.call.PCmd, c.call.Key), c.call.Step)
 			return vs
@@ -344,6 +362,40 @@ func checkC12(r *Result) []Violation {
 	return append(vs, checkReplyModel(r, replyOpts{prop: "C12", wantAll: true, numbering: true})...)
 }
 
+// enumC12: platform serial wrap-around under commands: 65 534 replies first, then commands whose serials are
+// 65534, 65535, 0, 1, ... each answered promptly by the terminal.
+func enumC12(tier string) (int, func(i int) *Plan) {
+	n := 1
+	if tier == "thorough" {
+		n = 2
+	}
+	return n, func(i int) *Plan {
+		p, g := newPlan("C12", 0xC12000+uint64(i), tier)
+		v19 := i%2 == 1
+		ci := g.addConn("service", v19, g.phone(v19))
+		var frames []SentFrame
+		for k := 0; k < 65534; k++ {
+			frames = append(frames, g.mkFrame(ci, 0x0002, uint16(k), nil))
+		}
+		a := g.connActor(ci, frames, "whole", 0)
+		nops := len(a.Ops)
+		for k := 0; k < 5; k++ {
+			ca := &Actor{Name: fmt.Sprintf("call%d", k), Conn: -1}
+			ca.Ops = append(ca.Ops, Op{K: "call", After: &Dep{Actor: a.Name, N: nops},
+				Call: &CallSpec{Key: ref.PhoneDigits(p.Conns[ci].Phone), Cmd: cmdIDs[k%len(cmdIDs)], Body: []byte{0xCA, byte(k), 1, 2, 3}, Timeout: int64(2 * time.Second)}})
+			p.Actors = append(p.Actors, ca)
+		}
+		p.Conns[ci].React = []Reaction{{Kind: "ok", Delay: int64(10 * time.Millisecond)}}
+		settle := &Actor{Name: "settle", Conn: -1, Ops: []Op{{K: "sleep", D: int64(5 * time.Second), After: &Dep{Actor: "call4", N: 1}}, {K: "quiet"}}}
+		p.Actors = append(p.Actors, settle)
+		p.Sched = SchedOpts{Strategy: "sticky", Sticky: 80}
+		p.MaxStep = 4000000
+		p.Note = "platform serial wrap-around with commands"
+		p.Faults = append(p.Faults, "serial.wrap")
+		return p
+	}
+}
+
 func foreignC12(r *Result) string {
 	if len(r.Crashes) > 0 {
 		return "crash(C13)"
@@ -352,7 +404,7 @@ func foreignC12(r *Result) string {
 }
 
 func init() {
-	register(&propDef{ID: "C12", Gen: genC12, Check: checkC12, Foreign: foreignC12,
+	register(&propDef{ID: "C12", Gen: genC12, Enum: enumC12, Check: withCrashRule("C12", checkC12),
 		Interesting: func(r *Result) bool {
 			n := 0
 			for _, c := range collectCalls(r) {
